@@ -1540,3 +1540,9 @@ and exhibited clearly, with a label attached.\
         assert!(matched);
     }
 }
+
+#[cfg(kani)]
+mod verif_kani {
+    use super::*;
+    include!(concat!(env!("RG_VERIF_KANI_DIR"), "/searcher/glue.rs"));
+}
